@@ -96,6 +96,12 @@ pub fn run_case(rep: &mut Report, case: &Case, verbose: bool) {
         let mut c = sn.node.clock.lock().unwrap();
         *c = SimClock::new(0, case.cfg.start, 0.0);
     }
+    // the host's clock of the node under test may refuse control calls (progress of the port state
+    // machine does not depend on the clock's answers)
+    if case.cfg.clock_fail_every > 0 {
+        sim.nodes[a].node.clock.lock().unwrap().fail_every = Some(case.cfg.clock_fail_every);
+        rep.ev("node_with_failing_clock");
+    }
     let mut links = vec![];
     for ends in link_ends {
         links.push(sim.add_link(ends, 20_000, 5_000, 0.0));
@@ -193,8 +199,13 @@ pub fn run_case(rep: &mut Report, case: &Case, verbose: bool) {
             for p in 0..n_ports {
                 let st = sim.nodes[a].node.port_state(p);
                 if st == PortState::Faulty {
-                    rep.ev("exempt_faulty_port");
                     all_master = false;
+                    if case.cfg.ports[p].p2p {
+                        rep.ev("exempt_faulty_port");
+                    } else {
+                        // only a peer-delay fault disables a port; an end-to-end port has none
+                        rep.violation("C12|silence|faulty-without-peer-delay-mechanism", &format!("port {p} uses the end-to-end delay mechanism and is Faulty after {} s of silence: nothing can ever take it out of that state", ta / 1_000_000_000), replay.clone());
+                    }
                     continue;
                 }
                 if st != PortState::Master {
@@ -262,7 +273,7 @@ pub fn run_case(rep: &mut Report, case: &Case, verbose: bool) {
         rep.ev("continuation_master");
         if eligible {
             let st = sim.nodes[a].node.port_state(0);
-            if st == PortState::Faulty {
+            if st == PortState::Faulty && p0.p2p {
                 rep.ev("exempt_faulty_port");
             } else if st != PortState::Slave {
                 let armed: Vec<&str> = (0..5).filter(|k| sim.nodes[a].timers[0][*k].is_some()).map(|k| TIMER_NAMES[k]).collect();
@@ -329,7 +340,7 @@ fn gen_case(rng: &mut StdRng) -> Case {
         filter: [0u8, 2][rng.gen_range(0..2)],
         tlv: 1,
         ports,
-        clock_fail_every: 0,
+        clock_fail_every: [0u32, 0, 0, 1, 3][rng.gen_range(0..5)],
         seed: rng.gen(),
         start: 1_700_000_000 * SEC,
     };
